@@ -610,7 +610,7 @@ pub fn run_c03(ctx: &Ctx) -> i32 {
         let mut rng = Rng::for_case(ctx.seed, "C03.variants", idx);
         let mut case = gen_case(&mut rng, &Limits { max_samples: 8000, max_blocks: 8, max_block_size: 1024, ..Limits::default() });
         let mut infos = vec![];
-        for (mt, mode, hint) in [(false, FillMode::Int, false), (false, FillMode::Bytes, true), (true, FillMode::Int, true), (true, FillMode::Bytes, false), (false, FillMode::BytesShort, false), (true, FillMode::IntShort, idx % 2 == 0), (true, FillMode::BytesShort, false)] {
+        for (mt, mode, hint) in [(false, FillMode::Int, false), (false, FillMode::Bytes, true), (true, FillMode::Int, true), (true, FillMode::Bytes, false), (false, FillMode::BytesShort, false), (true, FillMode::IntShort, idx % 2 == 0), (true, FillMode::BytesShort, false), (true, FillMode::Mixed, idx % 2 == 1), (false, FillMode::Mixed, false)] {
             case.cfg.multithread = mt;
             case.cfg.workers = NonZeroUsize::new(1 + rng.usize_below(4));
             case.mode = mode;
